@@ -17,6 +17,8 @@ import LinVerif.Lemmas.C20IterMachine
 import LinVerif.Lemmas.C20SeekMachine
 import LinVerif.Lemmas.C20Reuse
 import LinVerif.Lemmas.C20PrevMachine
+import LinVerif.Lemmas.C20Walk
+import LinVerif.Lemmas.C20WireErr
 import LinVerif.Model.Louds
 import LinVerif.Model.TrieBucket
 import LinVerif.Generated.C20
@@ -426,6 +428,62 @@ theorem unmarshal_marshal_encode (t : Node) (hb : WireBounded (toWire (encode t)
 theorem marshal_size (w : Wire) (h : WireOK w) : (marshal w).length = marshalSize w :=
   marshal_length w h
 
+/-- round trip on the BRANCH-FOR-BRANCH reader (`TrieWire.unmarshalR`: every length check, every unchecked
+slice expression, the uint32 wrap of the recomputed lengths): a well-formed image whose recomputed lengths
+do not wrap is accepted and yields exactly the written trie -/
+theorem unmarshal_errpaths_marshal (w : Wire) (h : WireOK w) (hf : WireFits w) : unmarshalR (marshal w) = .ok w :=
+  unmarshalR_marshal_wire w h hf
+
+/-- **a truncated image is never accepted**: for EVERY proper prefix of a serialised trie
+`UnmarshalBinary` returns an error or panics (the unchecked `buf[4:4+size]`, `buf[:4]`, `buf[:totalKeys*4]`
+slices) — it never yields a trie, in particular never a different one -/
+theorem unmarshal_truncated_never_ok (w : Wire) (h : WireOK w) (hf : WireFits w) (m : Nat)
+    (hm : m < (marshal w).length) : ∀ w', unmarshalR ((marshal w).take m) ≠ .ok w' :=
+  unmarshalR_truncated w h hf m hm
+
+/-- … for the encoding of every tree under the size bounds only -/
+theorem unmarshal_truncated_never_ok_encode (t : Node) (hb : WireBounded (toWire (encode t)))
+    (h4 : U32 (4 + (encode t).labels.length)) (m : Nat) (hm : m < (marshal (toWire (encode t))).length) :
+    ∀ w', unmarshalR ((marshal (toWire (encode t))).take m) ≠ .ok w' := by
+  have hfit : ∀ n, U32 n → U32 ((n / rankSparseBlockSize + 1) * 4) := by
+    intro n hn; unfold U32 rankSparseBlockSize at *; omega
+  exact unmarshalR_truncated _ (wireOK_encode t hb)
+    ⟨h4, ⟨hfit _ hb.hasChildBits⟩, ⟨hfit _ hb.pfxBits⟩, ⟨hfit _ hb.sfxBits⟩⟩ m hm
+
+/-- `UnmarshalBinary` looks only at the bytes it consumes: bytes after an accepted image change nothing -/
+theorem unmarshal_ignores_trailing_bytes (b s : List Nat) (w : Wire) (h : unmarshalR b = .ok w) :
+    unmarshalR (b ++ s) = .ok w := by
+  unfold unmarshalR at h ⊢
+  cases hp : parseR b with
+  | err k => rw [hp] at h; cases h
+  | panic => rw [hp] at h; cases h
+  | ok xr =>
+    obtain ⟨x, r⟩ := xr
+    rw [hp] at h
+    rw [ext_parseR b s x r hp]
+    exact h
+
+/-- **no state leaks between uses of a pooled trie object** (`trie.GetTrie` / `PutTrie`,
+`TrieBucket.Release`): whatever the object held before (`prev` arbitrary — a larger dictionary, or the
+half-assigned fields a FAILED `UnmarshalBinary` leaves), the outcome of `UnmarshalBinary(buf)` is that of
+a fresh object and after success the object is exactly the parsed image -/
+theorem unmarshal_into_used_object (prev : Wire) (b : List Nat) :
+    (unmarshalInto prev b).2 = (match unmarshalR b with | .ok _ => .ok () | .err k => .err k | .panic => .panic) ∧
+    (∀ w, unmarshalR b = .ok w → (unmarshalInto prev b).1 = w) :=
+  unmarshalInto_spec prev b
+
+/-- … in particular a good load after a failed one on the same object -/
+theorem unmarshal_after_failed_unmarshal (prev : Wire) (b1 b2 : List Nat) (w : Wire) (h : unmarshalR b2 = .ok w) :
+    (unmarshalInto (unmarshalInto prev b1).1 b2).1 = w :=
+  (unmarshalInto_spec _ b2).2 w h
+
+-- the failure modes are all inhabited (the last one: `4+size` wraps to 3, the slice `buf[4:3]` panics)
+example : unmarshalR [1, 0, 0, 0, 1, 0, 0, 0] = .err "eof" := by decide
+example : unmarshalR [1, 0, 0, 0, 1, 0, 0, 0, 9] = .err "labels-short" := by decide
+example : unmarshalR [1, 0, 0, 0, 1, 0, 0, 0, 9, 0, 0, 0, 97] = .panic := by decide
+example : unmarshalR [1, 0, 0, 0, 1, 0, 0, 0, 255, 255, 255, 255, 97] = .panic := by decide
+example : unmarshalR [1, 0, 0, 0, 1, 0, 0, 0, 1, 0, 0, 0, 97, 1, 0, 0] = .err "rank-header" := by decide
+
 /-- **a build is independent of the builder's previous builds**: whatever the re-used buffers of
 the builder (`hasChildVec`, `loudsVec`, `prefixVec`, `suffixVec` bit buffers and rank tables) held
 before — `prev` is arbitrary, e.g. a larger dictionary — `Write` serialises exactly what a fresh
@@ -634,6 +692,67 @@ theorem seekToLast_is_max {kvs : List KV} {t : Node} (h : Buildable kvs) (ht : b
   rw [hit] at this
   exact this
 
+/-- **cursor walks**: ANY script of `Next` / `Prev` calls on the stack machine over the vectors,
+started by `SeekToFirst` or by `SeekToLast`, observes (`Valid`, `Key`, `Value` after every call) exactly
+what an index cursor on the sorted pairs observes: `Next` = index + 1 (invalid past the last pair), `Prev` =
+index - 1 (invalid before the first), an invalid iterator stays invalid. Not only the two full sweeps. -/
+theorem louds_walk_refines_cursor {kvs : List KV} {t : Node} (h : Buildable kvs) (ht : build kvs = some t)
+    (ms : List LoudsIter.Mv) :
+    LoudsIter.walk (encode t) (LoudsIter.seekToFirst (encode t)) ms = LoudsIter.cursorWalk kvs (some 0) ms ∧
+    LoudsIter.walk (encode t) (LoudsIter.seekToLast (encode t)) ms =
+      LoudsIter.cursorWalk kvs (some (kvs.length - 1)) ms := by
+  obtain ⟨t', ht', hit, hwf, _⟩ := build_spec h
+  rw [ht] at ht'; cases ht'
+  have h1 := walk_spec hwf ms _ _ (at_first hwf)
+  have h2 := walk_spec hwf ms _ _ (at_last hwf)
+  rw [hit] at h1 h2
+  exact ⟨h1, h2⟩
+
+/-- … and started by `Seek(k)` (both source variants): the walk is that of the cursor standing where the
+forward enumeration from the landing position begins (`kvs.drop i`; with today's `Seek` that is the lower
+bound of `k`, `louds_seek_eq_lowerBound`), or of the invalid cursor when `Seek` ran past the end -/
+theorem louds_walk_from_seek {kvs : List KV} {t : Node} (step : Bool) (h : Buildable kvs)
+    (ht : build kvs = some t) (k : Key) (ms : List LoudsIter.Mv) :
+    ∃ c, LoudsIter.walk (encode t) (LoudsIter.seek step (encode t) k).1 ms = LoudsIter.cursorWalk kvs c ms ∧
+      (LoudsIter.seekAll step (encode t) k).2 = LoudsIter.cursorRest kvs c := by
+  obtain ⟨t', ht', hit, hwf, _⟩ := build_spec h
+  rw [ht] at ht'; cases ht'
+  obtain ⟨c, hc⟩ := at_seek hwf step k
+  refine ⟨c, ?_, ?_⟩
+  · rw [walk_spec hwf ms _ _ hc, hit]
+  · have := at_collect hwf hc
+    rw [hit] at this
+    exact this
+
+/-- **`Prev` undoes `Next` and `Next` undoes `Prev`**: after any script that leaves the iterator on the
+i-th pair, `Next(); Prev()` (when a next pair exists) resp. `Prev(); Next()` (when a previous pair exists)
+shows the neighbour and then the i-th pair again -/
+theorem next_prev_identity {kvs : List KV} {t : Node} (h : Buildable kvs) (ht : build kvs = some t)
+    (ms : List LoudsIter.Mv) (i : Nat) (hi : cursorAfter kvs.length (some 0) ms = some i) :
+    (i + 1 < kvs.length →
+      LoudsIter.walk (encode t) (LoudsIter.seekToFirst (encode t)) (ms ++ [.next, .prev]) =
+        LoudsIter.walk (encode t) (LoudsIter.seekToFirst (encode t)) ms ++ [kvs[i + 1]?, kvs[i]?]) ∧
+    (0 < i →
+      LoudsIter.walk (encode t) (LoudsIter.seekToFirst (encode t)) (ms ++ [.prev, .next]) =
+        LoudsIter.walk (encode t) (LoudsIter.seekToFirst (encode t)) ms ++ [kvs[i - 1]?, kvs[i]?]) := by
+  have hw := fun ms => (louds_walk_refines_cursor h ht ms).1
+  constructor
+  · intro hlt
+    rw [hw, hw, cursorWalk_append, hi]
+    simp [LoudsIter.cursorWalk, LoudsIter.cursorMove, LoudsIter.cursorObs, hlt]
+  · intro hpos
+    have hne : i ≠ 0 := by omega
+    have hlt : i - 1 + 1 < kvs.length ∨ True := Or.inr trivial
+    have hi' : i - 1 + 1 = i := by omega
+    rw [hw, hw, cursorWalk_append, hi]
+    have hil : i < kvs.length ∨ kvs.length ≤ i := by omega
+    simp only [LoudsIter.cursorWalk, LoudsIter.cursorMove, LoudsIter.cursorObs, hne, if_false, hi']
+    rcases hil with hil | hil
+    · simp [hil]
+    · -- a cursor never stands beyond the last pair
+      exfalso
+      exact cursorAfter_lt kvs.length ms 0 i (List.length_pos_iff.2 h.nonempty) hi hil
+
 /-- the encoded label / hasChild / louds / value vectors are the per-node rows concatenated in
 level order (what `trie.Init` / `bitVector.Init` do with the builder's levels) -/
 theorem louds_encoding_layout (t : Node) :
@@ -780,6 +899,42 @@ theorem gen_vector_layout :
       "endian.PutUint32", "w.Write", "encoding.U32SliceToBytes", "w.Write", "w.Write"] ∧
     Generated.C20.pathUnmarshalCalls = ["hasPathVector.Unmarshal", "len", "fmt.Errorf", "endian.Uint32",
       "endian.Uint32", "len", "uint32", "len", "fmt.Errorf", "encoding.BytesToU32Slice"] := ⟨rfl, rfl, rfl, rfl⟩
+
+/-- the remaining readers, statement for statement what `labelsR` / `valuesR` / `bitsR` / `selR` follow:
+`labelVector.Unmarshal` has ONE length check (`len(buf) < 4`) and slices `buf[4:4+size]` unchecked,
+`valueVector.Unmarshal` has none, `bitVector.unmarshal` checks the word bytes, `selectVector.Unmarshal`
+the header and the table -/
+theorem gen_unmarshal_checks :
+    Generated.C20.labelUnmarshalCalls = ["len", "len", "fmt.Errorf", "endian.Uint32"] ∧
+    Generated.C20.valueUnmarshalCalls = ["encoding.BytesToU32Slice"] ∧
+    Generated.C20.bitUnmarshalCalls = ["endian.Uint32", "v.numWords", "v.bitsSize", "int", "len", "len", "fmt.Errorf",
+      "encoding.BytesToU64Slice"] ∧
+    Generated.C20.selectUnmarshalCalls = ["len", "fmt.Errorf", "v.unmarshal", "endian.Uint32", "v.lutSize", "int",
+      "len", "len", "fmt.Errorf", "encoding.BytesToU32Slice"] := ⟨rfl, rfl, rfl, rfl⟩
+
+/-- **every field of a `trie` object and of each of its vectors is assigned by its `Unmarshal`** (directly,
+or through the `Unmarshal` of the field / embedded vector), in the section order `unmarshalInto` follows —
+what `unmarshal_into_used_object` rests on: a field added to one of these structs that the reader does not
+reset re-opens this obligation -/
+theorem gen_unmarshal_assigns_every_field :
+    Generated.C20.trieAssigned =
+      ["totalKeys", "height", "labelVec", "hasChildVec", "loudsVec", "prefixVec", "suffixVec", "values"] ∧
+    (Generated.C20.trieFields.all (Generated.C20.trieAssigned.contains ·) &&
+     Generated.C20.labelVectorFields.all (Generated.C20.labelVectorAssigned.contains ·) &&
+     Generated.C20.valueVectorFields.all (Generated.C20.valueVectorAssigned.contains ·) &&
+     Generated.C20.pathVectorFields.all (Generated.C20.pathVectorAssigned.contains ·) &&
+     Generated.C20.bitVectorFields.all (Generated.C20.bitVectorAssigned.contains ·) &&
+     Generated.C20.rankVectorFields.all (Generated.C20.rankVectorAssigned.contains ·) &&
+     Generated.C20.selectVectorFields.all (Generated.C20.selectVectorAssigned.contains ·)) = true := by
+  constructor
+  · rfl
+  · decide
+
+/-- `Iterator.Next` / `Prev`: the louds-bit climb, `setAt`, then the leftmost resp. rightmost descent
+(= `LoudsIter.next` / `prev`, the moves of `louds_walk_refines_cursor`) -/
+theorem gen_cursor_moves :
+    Generated.C20.nextCalls = ["loudsVec.IsSet", "it.setAt", "it.moveToLeftMostKey"] ∧
+    Generated.C20.prevCalls = ["loudsVec.IsSet", "it.setAt", "it.moveToRightMostKey"] := ⟨rfl, rfl⟩
 
 /-- `indexKVMerger.Merge` starts from a fresh `model.NewTrieBucket()` on every call (what
 `mergerStep` / `merge_independent_of_previous_merges` rest on) -/
